@@ -56,6 +56,7 @@ Judge(e) ==
          [] e.op = "ObjCall" -> JObjCall(e, MemFor(e).obj)
          [] e.op = "SignedProbe" -> JSignedProbe(e)
          [] e.op = "SignBuild" -> JSignBuild(e)
+         [] e.op = "ConcurrentSign" -> JConcurrentSign(e)
          [] e.op = "EncDec" -> JEncDec(e)
          [] e.op = "Blind" -> JBlind(e)
          [] e.op = "Concurrent" -> JConcurrent(e)
